@@ -85,6 +85,10 @@ def generate(ctx):
     return [c for c in cases if c is not None]
 
 def project(c, out):
+    a = c.line.split(' ', 6)
+    # runs with a failing allocation request are C08's subject (which request exists depends on the growth policy of the print
+    # buffer); here they are judged by the verdict only: NULL with a clean ledger, or the right text
+    if a[0] == 'print' and len(a) > 5 and a[5] != '0': return ''
     # the number of allocation requests a print makes is an internal matter (buffer growth policy), not an observable of C04
     return ' '.join(t for t in out.split(' ') if t != 'SPECDIFF' and not t.startswith('reqs=') and not (t.startswith('live=') and c.line.startswith('roundtrip')))
 
